@@ -98,7 +98,7 @@ impl Check for C31 {
                     return;
                 }
                 Err(p) => {
-                    cx.violation("anonymize-panicked", format!("anonymize panicked: {p}"), json!({"log": tail(&log, 20)}));
+                    cx.violation(&format!("anonymize-panicked|{}", panic_sig_fn(&p)), format!("anonymize panicked: {p}"), json!({"log": tail(&log, 20)}));
                     return;
                 }
             };
